@@ -172,10 +172,10 @@ theorem stream_extent (body rest : Bytes) (off : Nat) (hoff : off + 7 + body.len
     simp [skipWS, this, kwEndstream, h2]
   have hp9 : isPrefixOf kwEndstream (kwEndstream ++ rest) = true := by simp [kwEndstream, isPrefixOf]
   have hdrop9 : (kwEndstream ++ rest).drop 9 = rest := by simp [kwEndstream]
-  have hov : decide (off + 6 + 1 + body.length ≥ 9223372036854775808) = false := by simp; omega
+  have hov : ¬ (off + 6 + 1 + body.length ≥ 9223372036854775808) := by omega
   unfold readStreamData
-  simp only [hpre, hdrop, Bool.not_true, Bool.false_eq_true, ↓reduceIte, List.drop_succ_cons, List.drop_zero, hd2, hes,
-    hsk, hp9, hdrop9, hov]
+  simp only [hpre, hdrop, Bool.not_true, Bool.false_eq_true, ↓reduceIte, List.drop_succ_cons, List.drop_zero, hov, hd2, hes,
+    hsk, hp9, hdrop9]
 
 -- non-vacuity / the interesting bodies: containing the keywords and ending in CR LF
 example : (match readStreamData (kw_stream ++ [10] ++ (kwEndstream ++ [13, 10] ++ kwEndobj ++ [13, 10]) ++ [10] ++ kwEndstream ++ [10, 101])
